@@ -160,12 +160,11 @@ Definition prop (c : case) : bool :=
 
 Definition trig (c : case) : option N :=
   let ops := c_ops c in
-  if trig_redelete (c_batch c) ops then Some 0
-  else if disciplined ops && trig_empty_put ops then Some 1
-  else if disciplined ops && trig_rewrite ops then Some 2
+  if disciplined ops && trig_empty_put ops then Some 0
+  else if disciplined ops && trig_rewrite ops then Some 1
   else if disciplined ops &&
           (trig_bloom_fp (c_osz c) (nm_idx (snd (nm_run (c_osz c) (c_batch c) nm0 ops))) (c_bloom_mem c) ||
-           trig_bloom_fp (c_osz c) (l_idx (snd (ldb_run (c_osz c) ldb0 ops))) (c_bloom_ldb c)) then Some 3
+           trig_bloom_fp (c_osz c) (l_idx (snd (ldb_run (c_osz c) ldb0 ops))) (c_bloom_ldb c)) then Some 2
   else None.
 
 Definition nontrivial (c : case) : bool :=
